@@ -83,11 +83,19 @@ pub struct Cfg {
     /// pid 4242); otherwise the seed of the value every queried name gets, and of the pid
     #[serde(default)]
     pub env_seed: u64,
+    /// atomic-granular tier (instrumented build): probability (x/256) that an atomic operation
+    /// of the code under test is a scheduling point; 0 = job-granular scheduling
+    #[serde(default)]
+    pub atomic_rate: u16,
+    /// a lazily evaluated result (the sweep's iterator) is consumed while another computation of
+    /// the same kind is alive on the same thread and is consumed in lock-step
+    #[serde(default)]
+    pub interleave: bool,
 }
 
 impl Cfg {
     pub fn reference() -> Cfg {
-        Cfg { workers: 1, strategy: "sequential".into(), sched_seed: 0, hash_seed: 0, addr_seed: None, prefix: vec![], from_worker: false, decisions: None, repeat: false, callers: 1, callers_other: false, inplace: false, clock_seed: 0, cpus: 0, stack_seed: 0, env_seed: 0 }
+        Cfg { workers: 1, strategy: "sequential".into(), sched_seed: 0, hash_seed: 0, addr_seed: None, prefix: vec![], from_worker: false, decisions: None, repeat: false, callers: 1, callers_other: false, inplace: false, clock_seed: 0, cpus: 0, stack_seed: 0, env_seed: 0, atomic_rate: 0, interleave: false }
     }
 }
 
@@ -221,6 +229,7 @@ pub fn run_one(sc: &Scenario, op: &'static OpDef, input: &Input, prefix_inputs: 
     seams::begin_env(cfg.clock_seed, cfg.cpus);
     seams::set_stack_seed(cfg.stack_seed);
     seams::set_envvar_seed(cfg.env_seed, cfg.workers);
+    ops::set_interleave(cfg.interleave);
     let scfg = sim::Config {
         workers: cfg.workers,
         strategy: strategy_of(&cfg.strategy),
@@ -229,6 +238,7 @@ pub fn run_one(sc: &Scenario, op: &'static OpDef, input: &Input, prefix_inputs: 
         thread_start: Some(seams::mark_sim_thread),
         thread_wrap: Some(seams::on_sim_stack),
         stack: 16 << 20,
+        atomic_rate: if cfg!(feature = "atomic-points") { cfg.atomic_rate } else { 0 },
         ..sim::Config::default()
     };
     let from_worker = cfg.from_worker;
@@ -392,7 +402,7 @@ pub fn gen_scenario(seed: u64, large: u8) -> Scenario {
             fam = "cloud";
         }
         // the cheap point-set operations: a quarter of the time on 4 000 - 70 000 points
-        let many_points = large == 0 && matches!(op.name, "convex_hull" | "quick_and_graham_hull" | "extremes" | "minimum_rotated_rect") && rng.chance(1, 2);
+        let many_points = large == 0 && matches!(op.name, "convex_hull" | "quick_and_graham_hull" | "extremes" | "minimum_rotated_rect" | "set_distances") && rng.chance(1, 2);
         if many_points {
             fam = "cloud";
         }
@@ -503,6 +513,8 @@ pub fn gen_cfg(seed: u64, v: u64) -> Cfg {
         cpus: if rng.chance(1, 2) { *rng.pick(&[1usize, 2, 3, 4, 6, 8, 12, 16, 24, 32, 64, 128]) } else { 0 },
         stack_seed: if rng.chance(2, 3) { rng.next_u64() | 1 } else { 0 },
         env_seed: if rng.chance(1, 2) { rng.next_u64() | 1 } else { 0 },
+        interleave: rng.chance(1, 4),
+        atomic_rate: if cfg!(feature = "atomic-points") { *rng.pick(&[4u16, 16, 64, 128, 256, 256]) } else { 0 },
     }
 }
 
@@ -606,6 +618,12 @@ fn dims_of(cfg: &Cfg, sc: &Scenario) -> Vec<&'static str> {
     if cfg.env_seed != 0 {
         needed.push("env");
     }
+    if cfg.atomic_rate != 0 {
+        needed.push("in-job-interleaving");
+    }
+    if cfg.interleave {
+        needed.push("interleaved-lazy-consumption");
+    }
     if cfg.addr_seed.is_some() {
         needed.push("addr");
     }
@@ -697,6 +715,8 @@ fn minimise(sc: &Scenario, cfg: &Cfg) -> Option<Minimised> {
     try_reset("cpus", &|c| c.cpus = 0, &mut cfg);
     try_reset("stack", &|c| c.stack_seed = 0, &mut cfg);
     try_reset("env", &|c| c.env_seed = 0, &mut cfg);
+    try_reset("atomic", &|c| c.atomic_rate = 0, &mut cfg);
+    try_reset("interleave", &|c| c.interleave = false, &mut cfg);
     try_reset("addr", &|c| c.addr_seed = None, &mut cfg);
     try_reset("hash", &|c| c.hash_seed = 0, &mut cfg);
     try_reset(
@@ -740,6 +760,12 @@ fn minimise(sc: &Scenario, cfg: &Cfg) -> Option<Minimised> {
     }
     if cfg.env_seed != 0 {
         needed.push("env");
+    }
+    if cfg.atomic_rate != 0 {
+        needed.push("in-job-interleaving");
+    }
+    if cfg.interleave {
+        needed.push("interleaved-lazy-consumption");
     }
     if cfg.addr_seed.is_some() {
         needed.push("addr");
@@ -899,6 +925,13 @@ fn account(t: &mut Tot, sc: &Scenario, cfg: &Cfg, info: &RunInfo) {
         t.add("runs_with_env_variant", 1);
     }
     t.add("history_calls_that_panicked", PREFIX_PANICS.swap(0, std::sync::atomic::Ordering::SeqCst));
+    t.add("atomic_ops_seen", s.atomic_ops);
+    t.add("atomic_points", s.atomic_points);
+    t.add("futex_waits_turned_into_yields", s.blocked_points);
+    if s.atomic_points > 0 {
+        t.add("runs_with_atomic_points", 1);
+        t.add(&format!("runs_with_atomic_points/{}", sc.op), 1);
+    }
     t.add("env_var_reads", info.envvar.0);
     t.add("pid_reads", info.envvar.1);
     t.max("fixed_area_relocated", seams::stack_stats().1 + seams::arena_relocated());
